@@ -62,9 +62,28 @@ Definition announced (rem : bytes) : option nat :=
       else None
   end.
 
+(* The specification tables of the third byte of a channel-related block (hand written from the
+   DP-V0 coding, NOT generated from the source: the generated tables are proved equal to them).
+   bits 7..5: 001 bit, 010 2 bits, 011 4 bits, 100 byte, 101 word, 110 2 words, 000/111 no type;
+   bits 4..0: 1 short circuit, 2 undervoltage, 3 overvoltage, 4 overload, 5 overtemperature,
+   6 line break, 7 upper limit exceeded, 8 lower limit exceeded, 9 error, 16..31 manufacturer
+   specific, others reserved. *)
+Definition dtype_spec (t : Z) : chan_dtype :=
+  if t =? 1 then DtBit else if t =? 2 then DtBit2 else if t =? 3 then DtBit4
+  else if t =? 4 then DtByte else if t =? 5 then DtWord else if t =? 6 then DtDWord
+  else DtInvalid.
+
+Definition error_spec (e : Z) : chan_error :=
+  if e =? 1 then CeShortCircuit else if e =? 2 then CeUnderVoltage else if e =? 3 then CeOverVoltage
+  else if e =? 4 then CeOverLoad else if e =? 5 then CeOverTemperature else if e =? 6 then CeLineBreak
+  else if e =? 7 then CeUpperLimitOvershoot else if e =? 8 then CeLowerLimitUndershoot
+  else if e =? 9 then CeError
+  else if (16 <=? e) && (e <=? 31) then CeVendor e
+  else CeReserved e.
+
 Definition chan_spec (h b1 b2 : Z) : chan_diag :=
   mkChan (h mod 64) (b1 mod 64) (Z.testbit b1 6) (Z.testbit b1 7)
-         (chan_dtype_from_bits (b2 / 32)) (chan_error_from_code (b2 mod 32)).
+         (dtype_spec (b2 / 32)) (error_spec (b2 mod 32)).
 
 (* Channel-related diagnosis, third byte: bits 7..5 = channel data type (the enum discriminant is the
    code, 000 and 111 have no type), bits 4..0 = error (1..9 named, 16..31 vendor specific, the rest
